@@ -3,65 +3,13 @@
 From EV Require Import C13.Model C14.Model.
 From Coq Require Import Arith.
 
-Ltac break_lets :=
-  repeat match goal with
-         | |- context [let '(_, _) := ?t in _] => destruct t eqn:?
-         end.
-
-(** * counters: the next ordinal does not depend on the environment nor on the names *)
-
+(** renaming does not change which ordinals exist *)
 Lemma falses_length : forall xs, List.length (falses xs) = List.length xs.
 Proof. intros. unfold falses. apply map_length. Qed.
-
-Ltac use_cnt :=
-  repeat match goal with
-         | IH : forall r k, snd (?f r ?x k) = _, E : ?f ?r0 ?x ?k0 = _ |- _ =>
-             let H := fresh "Hc" in pose proof (IH r0 k0) as H; rewrite E in H; cbn [snd fst] in H; clear E
-         end.
-
-Lemma ord_cnt :
-  (forall e r k, snd (ord_expr r e k) = (k + List.length (dk_expr e))%nat) /\
-  (forall es r k, snd (ord_exprs r es k) = (k + List.length (dk_exprs es))%nat) /\
-  (forall s r k, snd (ord_stat r s k) = (k + List.length (dk_stat s))%nat) /\
-  (forall els r k, snd (ord_elifs r els k) = (k + List.length (dk_elifs els))%nat) /\
-  (forall b r k, snd (ord_block r b k) = (k + List.length (dk_block b))%nat).
-Proof.
-  apply syntax_mutind; intros;
-    cbn [ord_expr ord_exprs ord_stat ord_elifs ord_block dk_expr dk_exprs dk_stat dk_elifs dk_block];
-    try (destruct meth); break_lets; use_cnt; subst; cbn [snd fst];
-    cbn [List.length]; repeat rewrite ?app_length, ?falses_length; cbn [List.length]; unfold olen in *; try lia; auto.
-Qed.
-
-Ltac use_cnt_al :=
-  repeat match goal with
-         | IH : forall r k, snd (al_expr ?d ?y r ?x k) = _, E : al_expr ?d ?y ?r0 ?x ?k0 = _ |- _ =>
-             let H := fresh "Hc" in pose proof (IH r0 k0) as H; rewrite E in H; cbn [snd fst] in H; clear E
-         | IH : forall r k, snd (al_exprs ?d ?y r ?x k) = _, E : al_exprs ?d ?y ?r0 ?x ?k0 = _ |- _ =>
-             let H := fresh "Hc" in pose proof (IH r0 k0) as H; rewrite E in H; cbn [snd fst] in H; clear E
-         | IH : forall r k, snd (al_stat ?d ?y r ?x k) = _, E : al_stat ?d ?y ?r0 ?x ?k0 = _ |- _ =>
-             let H := fresh "Hc" in pose proof (IH r0 k0) as H; rewrite E in H; cbn [snd fst] in H; clear E
-         | IH : forall r k, snd (al_elifs ?d ?y r ?x k) = _, E : al_elifs ?d ?y ?r0 ?x ?k0 = _ |- _ =>
-             let H := fresh "Hc" in pose proof (IH r0 k0) as H; rewrite E in H; cbn [snd fst] in H; clear E
-         | IH : forall r k, snd (al_block ?d ?y r ?x k) = _, E : al_block ?d ?y ?r0 ?x ?k0 = _ |- _ =>
-             let H := fresh "Hc" in pose proof (IH r0 k0) as H; rewrite E in H; cbn [snd fst] in H; clear E
-         end.
 
 Section Alpha.
 Variable d : nat.
 Variable y : name.
-
-Lemma al_cnt :
-  (forall e r k, snd (al_expr d y r e k) = (k + List.length (dk_expr e))%nat) /\
-  (forall es r k, snd (al_exprs d y r es k) = (k + List.length (dk_exprs es))%nat) /\
-  (forall s r k, snd (al_stat d y r s k) = (k + List.length (dk_stat s))%nat) /\
-  (forall els r k, snd (al_elifs d y r els k) = (k + List.length (dk_elifs els))%nat) /\
-  (forall b r k, snd (al_block d y r b k) = (k + List.length (dk_block b))%nat).
-Proof.
-  apply syntax_mutind; intros;
-    cbn [al_expr al_exprs al_stat al_elifs al_block dk_expr dk_exprs dk_stat dk_elifs dk_block];
-    try (destruct meth); break_lets; use_cnt_al; subst; cbn [snd fst];
-    cbn [List.length]; repeat rewrite ?app_length, ?falses_length; cbn [List.length]; unfold olen in *; try lia; auto.
-Qed.
 
 Lemma al_names_length : forall xs k, List.length (al_names d y xs k) = List.length xs.
 Proof. induction xs as [|x t IH]; intros k; [reflexivity|]. cbn [al_names List.length]. rewrite IH. reflexivity. Qed.
@@ -69,66 +17,26 @@ Proof. induction xs as [|x t IH]; intros k; [reflexivity|]. cbn [al_names List.l
 Lemma falses_al_names : forall xs k, falses (al_names d y xs k) = falses xs.
 Proof. induction xs as [|x t IH]; intros k; [reflexivity|]. cbn [al_names falses map]. f_equal. apply IH. Qed.
 
-(** renaming does not change which ordinals exist *)
 Lemma al_dk :
-  (forall e r k, dk_expr (fst (al_expr d y r e k)) = dk_expr e) /\
-  (forall es r k, dk_exprs (fst (al_exprs d y r es k)) = dk_exprs es) /\
-  (forall s r k, dk_stat (fst (fst (al_stat d y r s k))) = dk_stat s) /\
-  (forall els r k, dk_elifs (fst (al_elifs d y r els k)) = dk_elifs els) /\
-  (forall b r k, dk_block (fst (fst (al_block d y r b k))) = dk_block b).
+  (forall e r k, dk_expr (al_expr d y r e k) = dk_expr e) /\
+  (forall es r k, dk_exprs (al_exprs d y r es k) = dk_exprs es) /\
+  (forall s r k, dk_stat (al_stat d y r s k) = dk_stat s) /\
+  (forall els r k, dk_elifs (al_elifs d y r els k) = dk_elifs els) /\
+  (forall b r k, dk_block (al_block d y r b k) = dk_block b).
 Proof.
   apply syntax_mutind; intros;
-    cbn [al_expr al_exprs al_stat al_elifs al_block];
-    try (destruct meth); break_lets; cbn [fst snd dk_expr dk_exprs dk_stat dk_elifs dk_block];
-    repeat match goal with
-           | IH : forall r k, _ (fst (?f ?d ?y r ?x k)) = _, E : ?f ?d ?y ?r0 ?x ?k0 = _ |- _ =>
-               let H := fresh "Hd" in pose proof (IH r0 k0) as H; rewrite E in H; cbn [fst snd] in H; clear E
-           | IH : forall r k, _ (fst (fst (?f ?d ?y r ?x k))) = _, E : ?f ?d ?y ?r0 ?x ?k0 = _ |- _ =>
-               let H := fresh "Hd" in pose proof (IH r0 k0) as H; rewrite E in H; cbn [fst snd] in H; clear E
-           end;
+    cbn [al_expr al_exprs al_stat al_elifs al_block dk_expr dk_exprs dk_stat dk_elifs dk_block];
     rewrite ?falses_al_names; congruence.
 Qed.
 
-(** * the environment after a statement / at the end of a block *)
-
-Definition env_after (r : oenv) (s : stat) (k : nat) : oenv :=
-  match s with
-  | SLocal xs _ => obind xs k r
-  | SLocalFun f _ _ => (f, k) :: r
-  | _ => r
-  end.
-
-Fixpoint benv_after (r : oenv) (b : block) (k : nat) : oenv :=
-  match b with
-  | BNil | BRet _ => r
-  | BCons s t => benv_after (env_after r s k) t (k + List.length (dk_stat s))%nat
-  end.
-
-Lemma ord_stat_env : forall s r k, snd (fst (ord_stat r s k)) = env_after r s k.
-Proof. intros s r k. destruct s; cbn [ord_stat env_after]; try (destruct meth); break_lets; reflexivity. Qed.
-
-Lemma ord_block_env : forall b r k, snd (fst (ord_block r b k)) = benv_after r b k.
-Proof.
-  induction b as [|es|s t IH]; intros r k; cbn [ord_block benv_after]; break_lets; try reflexivity.
-  cbn [fst snd].
-  pose proof (ord_stat_env s r k) as H1. pose proof (proj1 (proj2 (proj2 ord_cnt)) s r k) as H2.
-  match goal with E : ord_stat r s k = _ |- _ => rewrite E in H1, H2 end. cbn [fst snd] in H1, H2. subst.
-  match goal with E : ord_block _ t _ = _ |- _ => pose proof (IH (env_after r s k) (k + List.length (dk_stat s))%nat) as H3; rewrite E in H3 end.
-  exact H3.
-Qed.
-
-Lemma al_stat_env : forall s r k, snd (fst (al_stat d y r s k)) = env_after r s k.
-Proof. intros s r k. destruct s; cbn [al_stat env_after]; try (destruct meth); break_lets; reflexivity. Qed.
-
-Lemma al_block_env : forall b r k, snd (fst (al_block d y r b k)) = benv_after r b k.
-Proof.
-  induction b as [|es|s t IH]; intros r k; cbn [al_block benv_after]; break_lets; try reflexivity.
-  cbn [fst snd].
-  pose proof (al_stat_env s r k) as H1. pose proof (proj1 (proj2 (proj2 al_cnt)) s r k) as H2.
-  match goal with E : al_stat d y r s k = _ |- _ => rewrite E in H1, H2 end. cbn [fst snd] in H1, H2. subst.
-  match goal with E : al_block d y _ t _ = _ |- _ => pose proof (IH (env_after r s k) (k + List.length (dk_stat s))%nat) as H3; rewrite E in H3 end.
-  exact H3.
-Qed.
+Lemma al_cnt_expr : forall e r k, cnt_expr (al_expr d y r e k) = cnt_expr e.
+Proof. intros. unfold cnt_expr. rewrite (proj1 al_dk). reflexivity. Qed.
+Lemma al_cnt_exprs : forall es r k, cnt_exprs (al_exprs d y r es k) = cnt_exprs es.
+Proof. intros. unfold cnt_exprs. rewrite (proj1 (proj2 al_dk)). reflexivity. Qed.
+Lemma al_cnt_stat : forall s r k, cnt_stat (al_stat d y r s k) = cnt_stat s.
+Proof. intros. unfold cnt_stat. rewrite (proj1 (proj2 (proj2 al_dk))). reflexivity. Qed.
+Lemma al_cnt_block : forall b r k, cnt_block (al_block d y r b k) = cnt_block b.
+Proof. intros. unfold cnt_block. rewrite (proj2 (proj2 (proj2 (proj2 al_dk)))). reflexivity. Qed.
 
 (** * the renamed environment *)
 
@@ -136,10 +44,12 @@ Definition ren (r : oenv) : oenv := map (fun b => if Nat.eqb (snd b) d then (y, 
 
 Definition env_ok (r : oenv) : Prop := ~ In y (map fst r).
 
-Lemma olookup_cons : forall x b t, olookup x (b :: t) = if (fst b =? x)%N then Some (snd b) else olookup x t.
+Lemma olookup_cons : forall (x : N) (b : N * nat) (t : list (N * nat)),
+  olookup x (b :: t) = if (fst b =? x)%N then Some (snd b) else olookup x t.
 Proof. intros x b t. unfold olookup. cbn [find]. unfold name in *. destruct (fst b =? x)%N; reflexivity. Qed.
 
-Lemma al_use_cons_ne : forall x b t, (fst b =? x)%N = false -> al_use d y (b :: t) x = al_use d y t x.
+Lemma al_use_cons_ne : forall (x : N) (b : N * nat) (t : list (N * nat)),
+  (fst b =? x)%N = false -> al_use d y (b :: t) x = al_use d y t x.
 Proof. intros x b t H. unfold al_use. rewrite olookup_cons. unfold name in *. rewrite H. reflexivity. Qed.
 
 (** a use looks up in the renamed environment what it looked up in the original one *)
@@ -151,7 +61,10 @@ Proof.
     assert (Hx0 : x0 <> y) by (intros E; apply Hok; left; exact E).
     cbn [ren map snd]. fold (ren t). rewrite (olookup_cons x (x0, i0) t). cbn [fst snd].
     destruct (N.eqb_spec x0 x) as [E|E].
-    + subst x0. unfold al_use. rewrite olookup_cons. cbn [fst snd]. rewrite N.eqb_refl.
+    + subst x0.
+      assert (Hl : olookup x ((x, i0) :: t) = Some i0)
+        by (rewrite olookup_cons; cbn [fst snd]; rewrite N.eqb_refl; reflexivity).
+      unfold al_use. rewrite Hl.
       destruct (Nat.eqb i0 d); rewrite olookup_cons; cbn [fst snd]; rewrite N.eqb_refl; reflexivity.
     + rewrite al_use_cons_ne by (cbn [fst]; apply N.eqb_neq; exact E).
       specialize (IH x Hok' Hxy).
@@ -183,8 +96,8 @@ Proof.
   - intros H. apply Hn. right. exact H.
 Qed.
 
-Lemma env_ok_cons : forall x i r, env_ok r -> x <> y -> env_ok ((x, i) :: r).
-Proof. intros x i r Hok Hx [E|H]; [apply Hx; exact E|apply Hok; exact H]. Qed.
+Lemma env_ok_cons : forall x i r, env_ok r -> y <> x -> env_ok ((x, i) :: r).
+Proof. intros x i r Hok Hx [E|H]; [apply Hx; symmetry; exact E|apply Hok; exact H]. Qed.
 
 (** * no implicit self has the ordinal [d] *)
 
@@ -211,4 +124,163 @@ Qed.
 Lemma noself_falses : forall k xs l, noself k (falses xs ++ l) -> noself (k + List.length xs) l.
 Proof. intros k xs l H. apply noself_app in H. destruct H as (_ & H). rewrite falses_length in H. exact H. Qed.
 
+
+(** * the environments of the renamed program are the renamed environments *)
+
+Hypothesis Hself : y <> self_name.
+
+Lemma ren_env_after : forall s r k, env_after (ren r) (al_stat d y r s k) k = ren (env_after r s k).
+Proof.
+  intros s r k. destruct s; cbn [al_stat env_after]; try reflexivity.
+  - symmetry. apply ren_obind.
+  - cbn [ren map snd]. destruct (Nat.eqb k d); reflexivity.
+Qed.
+
+Lemma ren_benv_after : forall b r k, benv_after (ren r) (al_block d y r b k) k = ren (benv_after r b k).
+Proof.
+  induction b as [|es|s t IH]; intros r k; cbn [al_block benv_after]; try reflexivity.
+  rewrite al_cnt_stat, ren_env_after. apply IH.
+Qed.
+
+Lemma not_in_app : forall (a b : list name), ~ In y (a ++ b) -> ~ In y a /\ ~ In y b.
+Proof. intros a b H. split; intros Hin; apply H; apply in_or_app; [left|right]; exact Hin. Qed.
+
+Lemma env_ok_after : forall s r k, env_ok r -> ~ In y (names_stat s) -> env_ok (env_after r s k).
+Proof.
+  intros s r k Hok Hn. destruct s; cbn [env_after names_stat] in *; try exact Hok.
+  - apply not_in_app in Hn. apply env_ok_obind; [exact Hok|apply Hn].
+  - apply env_ok_cons; [exact Hok|]. intros E. apply Hn. left. symmetry. exact E.
+Qed.
+
+Lemma env_ok_bafter : forall b r k, env_ok r -> ~ In y (names_block b) -> env_ok (benv_after r b k).
+Proof.
+  induction b as [|es|s t IH]; intros r k Hok Hn; cbn [benv_after names_block] in *; try exact Hok.
+  apply not_in_app in Hn. destruct Hn as (Hn1 & Hn2). apply IH; [apply env_ok_after; assumption|exact Hn2].
+Qed.
+
+Lemma env_ok_meth : forall meth r k, env_ok r -> env_ok (meth_env meth r k).
+Proof.
+  intros [m|] r k Hok; cbn [meth_env]; [|exact Hok]. apply env_ok_cons; [exact Hok|exact Hself].
+Qed.
+
+Lemma ren_meth : forall meth r k, (meth <> None -> k <> d) -> ren (meth_env meth r k) = meth_env meth (ren r) k.
+Proof.
+  intros [m|] r k H; cbn [meth_env]; [|reflexivity]. cbn [ren map snd].
+  destruct (Nat.eqb_spec k d) as [E|E]; [exfalso; apply H; [discriminate|exact E]|reflexivity].
+Qed.
+
+Lemma olookup_use : forall r x, env_ok r -> x <> y -> olookup (al_use d y r x) (ren r) = olookup x r.
+Proof. exact olookup_ren. Qed.
+
+Ltac split_names :=
+  repeat match goal with
+         | H : ~ In y (_ ++ _) |- _ => apply not_in_app in H; destruct H
+         | H : ~ In y (_ :: _) |- _ => apply not_in_cons in H; destruct H
+         end.
+
+Ltac split_noself :=
+  repeat match goal with
+         | H : noself _ (falses _ ++ _) |- _ => apply noself_falses in H
+         | H : noself _ (_ ++ _) |- _ => apply noself_app in H; destruct H
+         | H : noself _ (false :: _) |- _ => apply noself_cons_false in H
+         end.
+
+(** * alpha-renaming preserves the resolution of every use *)
+Lemma alpha_ord :
+  (forall e r k, env_ok r -> ~ In y (names_expr e) -> noself k (dk_expr e) ->
+                 ord_expr (ren r) (al_expr d y r e k) k = ord_expr r e k) /\
+  (forall es r k, env_ok r -> ~ In y (names_exprs es) -> noself k (dk_exprs es) ->
+                  ord_exprs (ren r) (al_exprs d y r es k) k = ord_exprs r es k) /\
+  (forall s r k, env_ok r -> ~ In y (names_stat s) -> noself k (dk_stat s) ->
+                 ord_stat (ren r) (al_stat d y r s k) k = ord_stat r s k) /\
+  (forall els r k, env_ok r -> ~ In y (names_elifs els) -> noself k (dk_elifs els) ->
+                   ord_elifs (ren r) (al_elifs d y r els k) k = ord_elifs r els k) /\
+  (forall b r k, env_ok r -> ~ In y (names_block b) -> noself k (dk_block b) ->
+                 ord_block (ren r) (al_block d y r b k) k = ord_block r b k).
+Proof.
+  apply syntax_mutind.
+  - (* ENum *) reflexivity.
+  - (* EName *) intros x r k Hok Hn _. cbn [al_expr ord_expr names_expr] in *. f_equal.
+    apply olookup_use; [exact Hok|]. intros E. apply Hn. left. exact E.
+  - (* EIdx *) intros e IHe f r k Hok Hn Hs. cbn [al_expr ord_expr names_expr dk_expr] in *. apply IHe; assumption.
+  - (* ECall *) intros f IHf args IHa r k Hok Hn Hs. cbn [al_expr ord_expr names_expr dk_expr] in *.
+    split_names. split_noself. rewrite al_cnt_expr. f_equal; [apply IHf|apply IHa]; assumption.
+  - (* EBin *) intros a IHa b IHb r k Hok Hn Hs. cbn [al_expr ord_expr names_expr dk_expr] in *.
+    split_names. split_noself. rewrite al_cnt_expr. f_equal; [apply IHa|apply IHb]; assumption.
+  - (* EFun *) intros ps b IHb r k Hok Hn Hs. cbn [al_expr ord_expr names_expr dk_expr] in *.
+    split_names. split_noself. unfold olen. rewrite al_names_length, <- ren_obind.
+    apply IHb; [apply env_ok_obind; assumption|assumption|assumption].
+  - (* ENil *) reflexivity.
+  - (* ECons *) intros e IHe es IHes r k Hok Hn Hs. cbn [al_exprs ord_exprs names_exprs dk_exprs] in *.
+    split_names. split_noself. rewrite al_cnt_expr. f_equal; [apply IHe|apply IHes]; assumption.
+  - (* SLocal *) intros xs es IHes r k Hok Hn Hs. cbn [al_stat ord_stat names_stat dk_stat] in *.
+    split_names. split_noself. unfold olen. rewrite al_names_length. apply IHes; assumption.
+  - (* SAssign *) intros vs IHvs es IHes r k Hok Hn Hs. cbn [al_stat ord_stat names_stat dk_stat] in *.
+    split_names. split_noself. rewrite al_cnt_exprs. f_equal; [apply IHvs|apply IHes]; assumption.
+  - (* SCall *) intros f IHf args IHa r k Hok Hn Hs. cbn [al_stat ord_stat names_stat dk_stat] in *.
+    split_names. split_noself. rewrite al_cnt_expr. f_equal; [apply IHf|apply IHa]; assumption.
+  - (* SLocalFun *) intros f ps b IHb r k Hok Hn Hs. cbn [al_stat ord_stat names_stat dk_stat] in *.
+    split_names. split_noself. unfold olen. rewrite al_names_length.
+    replace ((if Nat.eqb k d then y else f, k) :: ren r) with (ren ((f, k) :: r))
+      by (cbn [ren map snd]; destruct (Nat.eqb k d); reflexivity).
+    rewrite <- ren_obind.
+    apply IHb; [apply env_ok_obind; [apply env_ok_cons; assumption|assumption]|assumption|].
+    replace (S k + List.length ps)%nat with (S k + List.length ps)%nat by reflexivity. assumption.
+  - (* SFun *) intros root fields meth ps b IHb r k Hok Hn Hs. cbn [al_stat ord_stat names_stat dk_stat] in *.
+    split_names.
+    assert (Hm : (meth <> None -> k <> d) /\ noself (k + meth_cnt meth + List.length ps) (dk_block b)).
+    { destruct meth as [m|]; cbn [meth_cnt app] in *.
+      - apply noself_cons_true in Hs. destruct Hs as (Hk & Hs). split; [intros _; exact Hk|].
+        apply noself_falses in Hs. replace (k + 1 + List.length ps)%nat with (S k + List.length ps)%nat by lia. exact Hs.
+      - split; [intros E; congruence|]. apply noself_falses in Hs.
+        replace (k + 0 + List.length ps)%nat with (k + List.length ps)%nat by lia. exact Hs. }
+    destruct Hm as (Hm & Hsb).
+    f_equal; [apply olookup_use; [exact Hok|congruence]|].
+    unfold olen. rewrite al_names_length, <- (ren_meth meth r k Hm), <- ren_obind.
+    apply IHb; [apply env_ok_obind; [apply env_ok_meth; exact Hok|assumption]|assumption|exact Hsb].
+  - (* SDo *) intros b IHb r k Hok Hn Hs. cbn [al_stat ord_stat names_stat dk_stat] in *. apply IHb; assumption.
+  - (* SWhile *) intros c IHc b IHb r k Hok Hn Hs. cbn [al_stat ord_stat names_stat dk_stat] in *.
+    split_names. split_noself. rewrite al_cnt_expr. f_equal; [apply IHc|apply IHb]; assumption.
+  - (* SRepeat *) intros b IHb c IHc r k Hok Hn Hs. cbn [al_stat ord_stat names_stat dk_stat] in *.
+    split_names. split_noself. rewrite al_cnt_block, ren_benv_after. f_equal; [apply IHb; assumption|].
+    apply IHc; [apply env_ok_bafter; assumption|assumption|assumption].
+  - (* SIf *) intros c IHc b IHb els IHe r k Hok Hn Hs. cbn [al_stat ord_stat names_stat dk_stat] in *.
+    split_names. split_noself. rewrite al_cnt_expr, al_cnt_block.
+    f_equal; [apply IHc; assumption|]. f_equal; [apply IHb; assumption|].
+    apply IHe; assumption.
+  - (* SFor *) intros x es IHes b IHb r k Hok Hn Hs. cbn [al_stat ord_stat names_stat dk_stat] in *.
+    split_names. split_noself. rewrite al_cnt_exprs. f_equal; [apply IHes; assumption|].
+    replace ((if Nat.eqb k d then y else x, k) :: ren r) with (ren ((x, k) :: r))
+      by (cbn [ren map snd]; destruct (Nat.eqb k d); reflexivity).
+    apply IHb; [apply env_ok_cons; assumption|assumption|assumption].
+  - (* SForIn *) intros xs es IHes b IHb r k Hok Hn Hs. cbn [al_stat ord_stat names_stat dk_stat] in *.
+    split_names. split_noself. unfold olen. rewrite al_names_length, al_cnt_exprs, <- ren_obind.
+    f_equal; [apply IHes; assumption|]. apply IHb; [apply env_ok_obind; assumption|assumption|assumption].
+  - (* ElEnd *) reflexivity.
+  - (* ElElse *) intros b IHb r k Hok Hn Hs. cbn [al_elifs ord_elifs names_elifs dk_elifs] in *. apply IHb; assumption.
+  - (* ElIf *) intros c IHc b IHb t IHt r k Hok Hn Hs. cbn [al_elifs ord_elifs names_elifs dk_elifs] in *.
+    split_names. split_noself. rewrite al_cnt_expr, al_cnt_block.
+    f_equal; [apply IHc; assumption|]. f_equal; [apply IHb; assumption|]. apply IHt; assumption.
+  - (* BNil *) reflexivity.
+  - (* BRet *) intros es IHes r k Hok Hn Hs. cbn [al_block ord_block names_block dk_block] in *. apply IHes; assumption.
+  - (* BCons *) intros s IHs t IHt r k Hok Hn Hs. cbn [al_block ord_block names_block dk_block] in *.
+    split_names. split_noself. rewrite al_cnt_stat, ren_env_after.
+    f_equal; [apply IHs; assumption|]. apply IHt; [apply env_ok_after; assumption|assumption|assumption].
+Qed.
+
 End Alpha.
+
+(** renaming the declaration with ordinal [d] (one that has a token) and its uses to a fresh name leaves the
+    resolution of every use unchanged *)
+Theorem alpha_preserves_resolution : forall (p : program) (d : nat) (y : name),
+  fresh y p -> real_decl p d \/ List.length (dk_block p) <= d ->
+  ord_resolve (alpha d y p) = ord_resolve p.
+Proof.
+  intros p d y (Hn & Hs) Hd. unfold ord_resolve, alpha.
+  apply (proj2 (proj2 (proj2 (proj2 (alpha_ord d y Hs)))) p [] 0%nat).
+  - intros H. exact H.
+  - exact Hn.
+  - intros j Hj E. cbn [Nat.add] in E. subst j. destruct Hd as [Hd|Hd].
+    + unfold real_decl in Hd. congruence.
+    + apply nth_error_None in Hd. congruence.
+Qed.
